@@ -90,7 +90,7 @@ func (c c17) Generate(e *Env) ([]*Case, error) {
 			return []c17Client{{"p3", cfg, ps[rng.Intn(3)]}, {"p3", cfg, ps[rng.Intn(3)]}}
 		},
 	}
-	n := 14
+	n := 21
 	if thorough {
 		n = 220
 	}
